@@ -900,18 +900,6 @@ class Engine:
             assert len(advance['update']) == 0, \
                 f"the process at path {path} is an unapplied update"
 
-    def _next_time(self, full_step: float) -> float:
-        '''The global time after advancing by ``full_step``.
-
-        ``full_step`` is a difference of two times on the
-        ``global_time_precision`` grid, so the sum may miss the grid by
-        a float error (0.2 + (0.9 - 0.2) = 0.9000000000000001).
-        '''
-        next_time = self.global_time + full_step
-        if self.global_time_precision is not None:
-            next_time = round(next_time, self.global_time_precision)
-        return next_time
-
     def _remove_deleted_processes(self) -> None:
         '''Remove deleted processes from the front.'''
         self.front = {
@@ -949,6 +937,10 @@ class Engine:
 
         while self.global_time < end_time or force_complete:
             full_step = math.inf
+            # the time of the next event; full_step is its distance from
+            # the global time, and adding that difference back may miss
+            # the event time by a float error (0.3 + (0.9 - 0.3) > 0.9)
+            next_time = math.inf
             self._remove_deleted_processes()
 
             # processes at quiet paths don't meet their execution condition,
@@ -999,6 +991,7 @@ class Engine:
                             # absolute timestep
                             timestep = future - self.global_time
                             full_step = min(full_step, timestep)
+                            next_time = min(next_time, future)
                         else:
                             # mark this path "quiet" so its time can be advanced
                             self.front[path]['update'] = (EmptyDefer(), store)
@@ -1011,11 +1004,13 @@ class Engine:
                         # absolute timestep
                         timestep = future - self.global_time
                         full_step = min(full_step, timestep)
+                        next_time = min(next_time, future)
 
                 else:
                     # don't shoot past processes that didn't run this time
                     process_delay = process_time - self.global_time
                     full_step = min(full_step, process_delay)
+                    next_time = min(next_time, process_time)
 
             # apply updates based on process times in self.front
             if full_step == math.inf:
@@ -1031,10 +1026,10 @@ class Engine:
                     self.front[quiet]['time'] = self.global_time
                     self.front[quiet]['update'] = {}
 
-            elif self._next_time(full_step) <= end_time:
+            elif next_time <= end_time:
                 # at least one process ran within the interval
                 # increase the time, apply updates, and continue
-                self.global_time = self._next_time(full_step)
+                self.global_time = next_time
 
                 # advance all quiet processes to current time
                 for quiet in quiet_paths:
